@@ -192,6 +192,18 @@ func buildBatches(res *evid.Result, root string, thorough bool) []*batch {
 		}
 		f := writeModule(filepath.Join(b.dir, "src"), "p.go", src.String())
 		b.cases = []Case{{ID: "blocks/5000", Family: "function-blocks", Kind: "blocks", File: f, Params: sizes}}
+		// the same bodies as function LITERALS of a three-block declaration: the limit is on the
+		// function that is analysed, whatever encloses it
+		{
+			lsizes := []int{4000, 5001, 12000}
+			var ls strings.Builder
+			ls.WriteString(fileHeader)
+			for _, k := range lsizes {
+				fmt.Fprintf(&ls, "func Q_%d(x int) int {\n\tf := %s\n\tif x < 0 {\n\t\treturn 0\n\t}\n\treturn f(x)\n}\n\n", k, strings.TrimSpace(genBlocks("", k)))
+			}
+			lf := writeModule(filepath.Join(b.dir, "lit"), "p.go", ls.String())
+			b.cases = append(b.cases, Case{ID: "blocks/literal", Family: "function-blocks", Kind: "litblocks", File: lf, Params: lsizes})
+		}
 		// a function that crosses the limit between two revisions (within it on one side only)
 		for _, pr := range [][2]int{{4000, 6000}, {7000, 3000}, {5000, 5001}} {
 			fo := writeModule(filepath.Join(b.dir, fmt.Sprintf("one-%d-%d-old", pr[0], pr[1])), "p.go", fileHeader+genBlocks("Grow", pr[0]))
@@ -833,6 +845,29 @@ func judgeBlocks(res *evid.Result, all []Rec) {
 	}
 	if _, ok := seen[maxBlocks+1]; !ok {
 		res.Broken = "no function with exactly 5001 blocks was observed"
+	}
+	nLit := 0
+	for _, r := range all {
+		if r.Kind != "litblocks" || r.Err != "" {
+			continue
+		}
+		nLit++
+		res.Eval(1)
+		res.Distinct(fmt.Sprintf("literal-blocks/%d", r.Blocks))
+		switch {
+		case r.Blocks > maxBlocks && r.FP != "OVERSIZED":
+			res.Violate("guard/max-function-blocks-not-enforced/function-literal", fmt.Sprintf("function literal %s with %d blocks (> %d) was fingerprinted (%s…, %d allocations) instead of OVERSIZED", r.Func, r.Blocks, maxBlocks, head(r.FP, 16), r.Mallocs),
+				replayOf(r.Family, map[string]any{"record": r, "generator": fmt.Sprintf("a declaration of three blocks around the literal form of genBlocks(\"\", %d)", r.Param)}))
+		case r.Blocks > maxBlocks && biggestAllowed.Mallocs > 0 && r.Mallocs*10 > biggestAllowed.Mallocs:
+			res.Violate("guard/max-function-blocks-not-cheap/function-literal", fmt.Sprintf("function literal %s with %d blocks is labelled OVERSIZED only after %d allocations (a processed %d-block function needs %d)", r.Func, r.Blocks, r.Mallocs, biggestAllowed.Blocks, biggestAllowed.Mallocs),
+				replayOf(r.Family, map[string]any{"record": r}))
+		case r.Blocks <= maxBlocks && len(r.FP) != 64:
+			res.Violate("guard/max-function-blocks-rejects-within-limit/function-literal", fmt.Sprintf("function literal %s with %d blocks (<= %d) was not fingerprinted: %q", r.Func, r.Blocks, maxBlocks, r.FP),
+				replayOf(r.Family, map[string]any{"record": r}))
+		}
+	}
+	if nLit < 3 {
+		res.Broken = fmt.Sprintf("only %d of the 3 block-count cases on function literals were observed", nLit)
 	}
 	var ks []int
 	for k := range seen {
